@@ -1440,7 +1440,7 @@ Lemma resolve_true_post_refuted :
   exists fs m0 st', Resolvable fs m0 /\
     resolve_imports (fuel_bound fs empty_state) true fs empty_state m0 = Ok (true, st') /\
     has_unresolved_imports no_fixes (scan_fuel fs st' m0) st' m0 = Ok true /\
-    has_unresolved_imports {| fx_pop := true; fx_nullref := false |} (scan_fuel fs st' m0) st' m0 = Ok false.
+    has_unresolved_imports {| fx_pop := true; fx_nullref := false; fx_placeholder_children := false |} (scan_fuel fs st' m0) st' m0 = Ok false.
 Proof.
   exists fb_fs, fb_m0, (st_of (run1 fb_fs empty_state fb_m0)).
   split; [exact fb_resolvable|]. repeat split; vm_compute; reflexivity.
@@ -1453,7 +1453,7 @@ Lemma unresolved_test_crash_refuted :
   exists m0 st', resolve_imports (fuel_bound [] empty_state) true [] empty_state m0 = Ok (true, st') /\
                  has_unresolved_imports no_fixes (scan_fuel [] st' m0) st' m0 = Crash /\
                  flatten_precheck no_fixes (scan_fuel [] st' m0) st' m0 = Crash /\
-                 has_unresolved_imports {| fx_pop := false; fx_nullref := true |} (scan_fuel [] st' m0) st' m0 = Ok false.
+                 has_unresolved_imports {| fx_pop := false; fx_nullref := true; fx_placeholder_children := false |} (scan_fuel [] st' m0) st' m0 = Ok false.
 Proof.
   exists fc_m0, (st_of (run1 [] empty_state fc_m0)). repeat split; vm_compute; reflexivity.
 Qed.
@@ -2030,24 +2030,27 @@ Section ScanTotal.
     apply units_test_total; auto. pose proof (U_bound o (uname u)). lia.
   Qed.
 
-  Lemma comp_walk_fine (imp units_ok : comp -> res bool) :
+  Lemma comp_walk_fine (pk : bool) (imp units_ok : comp -> res bool) :
     forall c, (forall c', In c' (subcomps c) -> fine (fun _ => True) (imp c')) ->
               (forall c', In c' (subcomps c) -> fine (fun _ => True) (units_ok c')) ->
-              fine (fun _ => True) (comp_walk imp units_ok c).
+              fine (fun _ => True) (comp_walk pk imp units_ok c).
   Proof.
     induction c as [n i used kids IHk] using comp_ind'. intros Hi Hu. cbn [comp_walk].
-    destruct i as [p|]; [apply Hi; apply subcomps_self|].
-    pose proof (Hu _ (subcomps_self _)) as H0. destruct (units_ok (Comp n None used kids)) as [b| |]; cbn [fine] in H0 |- *; auto.
+    assert (H0 : fine (fun _ => True) (match i with Some _ => imp (Comp n i used kids) | None => units_ok (Comp n i used kids) end)).
+    { destruct i; [apply Hi|apply Hu]; apply subcomps_self. }
+    destruct (match i with Some _ => imp (Comp n i used kids) | None => units_ok (Comp n i used kids) end) as [b| |];
+      cbn [fine] in H0 |- *; auto.
     destruct b; [|exact I].
+    destruct (match i with Some _ => pk | None => true end); [|exact I].
     assert (Hi' : forall c', In c' (flat_map subcomps kids) -> fine (fun _ => True) (imp c')).
     { intros c' Hc'. apply Hi. rewrite subcomps_eq. right. exact Hc'. }
     assert (Hu' : forall c', In c' (flat_map subcomps kids) -> fine (fun _ => True) (units_ok c')).
     { intros c' Hc'. apply Hu. rewrite subcomps_eq. right. exact Hc'. }
     clear H0 Hi Hu. induction kids as [|k r IHr]; [exact I|].
     inversion IHk as [|k' r' Hk Hr]; subst.
-    assert (G : fine (fun _ => True) (comp_walk imp units_ok k)).
+    assert (G : fine (fun _ => True) (comp_walk pk imp units_ok k)).
     { apply Hk; intros c' Hc'; [apply Hi'|apply Hu']; cbn [flat_map]; apply in_or_app; left; exact Hc'. }
-    destruct (comp_walk imp units_ok k) as [b| |]; cbn [fine] in G |- *; auto. destruct b; [|exact I].
+    destruct (comp_walk pk imp units_ok k) as [b| |]; cbn [fine] in G |- *; auto. destruct b; [|exact I].
     apply IHr; [exact Hr| |]; intros c' Hc'; [apply Hi'|apply Hu']; cbn [flat_map]; apply in_or_app; right; exact Hc'.
   Qed.
 
